@@ -55,12 +55,14 @@ class CheckC18(core.Check):
                 for _ in range(25 * mul):
                     k = rnd.randbytes(rnd.choice([0, 1, 16, 31, 32, 33, bl // 2, bl - 1, bl, prims.hashlen(hn)]))
                     d = rnd.randbytes(rnd.choice([0, 1, 32, 33, bl - 1, bl, bl + 1, 3 * bl]))
-                    ops.append(("prim_hmac", dict(res=res, choice=hn, key=k, data=d), ("hmac", hn, k, d)))
+                    pre = rnd.randbytes(rnd.choice([1, 7, bl])) if rnd.random() < 0.3 else None
+                    ops.append(("prim_hmac", dict(res=res, choice=hn, key=k, data=d, pre=pre), ("hmac", hn, k, d)))
                 for _ in range(25 * mul):
                     ck = rnd.randbytes(prims.hashlen(hn))
                     ikm = rnd.randbytes(rnd.choice([0, 32, 56, 65, 1, 200]))
                     n = rnd.choice([1, 2, 3])
-                    ops.append(("prim_hkdf", dict(res=res, choice=hn, ck=ck, ikm=ikm, n=n), ("hkdf", hn, ck, ikm, n)))
+                    pre = rnd.randbytes(rnd.choice([1, 7, bl])) if rnd.random() < 0.3 else None
+                    ops.append(("prim_hkdf", dict(res=res, choice=hn, ck=ck, ikm=ikm, n=n, pre=pre), ("hkdf", hn, ck, ikm, n)))
         for ci in CIPHERS:
             for res in ("D", "Ronly") if ci in RING_CIPHER else ("D",):
                 for i in range(70 * mul):
